@@ -922,6 +922,10 @@ func (x *c18) runLegalRaw() {
 		{"Linux", "raw route identical to a Netspoc route", "",
 			core.Files{Main: "ip route add 10.20.0.0/16 via 10.1.2.3\n", Raw: "ip route add 10.20.0.0/16 via 10.1.2.3\nip route add 10.30.0.0/16 via 10.1.2.3\n"},
 			map[string]int{"ip route add 10.20.0.0/16 via 10.1.2.3": 1, "ip route add 10.30.0.0/16 via 10.1.2.3": 1}},
+		{"Linux", "raw route equal to a Netspoc route in another spelling", "",
+			core.Files{Main: "ip route add 10.20.0.0/16 via 10.1.2.3\nip route add 10.40.0.1/32 via 10.1.2.3\nip route add 0.0.0.0/0 via 10.1.2.9\n",
+				Raw: "ip route add  10.20.0.0/16  via 10.1.2.3\nip route add 10.40.0.1 via 10.1.2.3\nip route add default via 10.1.2.9\nip route add 10.30.0.0/16 via 10.1.2.3\n"},
+			map[string]int{"10.20.0.0/16": 1, "10.40.0.1": 1, "10.1.2.9": 1, "10.30.0.0/16": 1}},
 	}
 	for i, c := range cases {
 		x.res.Evaluations++
